@@ -35,7 +35,8 @@ BBox calc_difference(BBox const& a, BBox const& b, BoxOp op)
     }
     if (encloses(a, b))
     {
-        return (op == BoxOp::shrink ? b : a);
+        // Shrinking: no single box is guaranteed to lie inside "a minus b"
+        return (op == BoxOp::shrink ? BBox{} : a);
     }
     if (encloses(b, a))
     {
